@@ -5,7 +5,11 @@ attributes, three aliases) is rebuilt for every history through the real API; th
 operations is applied: ``set_member`` / ``__setitem__`` / ``del_member`` / ``__delitem__`` /
 ``get_member`` / ``__getitem__`` with string, dotted and tuple keys on objects and on the collection,
 alias creation with string and object targets, ``alias.target = ...`` (including itself and same-path
-objects), resolution of string aliases, replacement of aliased objects, a stubs-module replacement.
+objects), resolution of string aliases, replacement of aliased objects, a stubs-module replacement.  Values are not only
+fresh objects: a history may store an object that has been around (``existing``: deleted / replaced / never attached objects put
+back, moved to another container or attached at last; attached objects stored again where they are), build containers
+bottom-up (members - aliases with a constructor parent included - stored before the container gets its place), create values
+without storing them (``new``) and work on containers that hang outside the tree (receiver ``@<creation label>``).
 ALL histories of length <= 3 over a fixed operation alphabet are enumerated; long histories are random.
 
 Oracle: *history + executable model*.  ``vf.gen.c16_model`` (plain dict tree + alias pointers, no Griffe
@@ -26,10 +30,12 @@ LEVEL = "exploration"
 ANCHORS = ["mixins.py", "collections.py"]
 RULE = ("histories over the universe {collection; modules a,b; classes a.K,b.L; functions a.g,a.K.f,b.L.h; attributes "
         "a.y,a.K.x,b.z; aliases b.ak->'a.K' (string), b.ag->a.g (object), a.K.al->'b.L.h' (string)}: every sequence of "
-        "length 1..3 over a fixed alphabet of 37 literal operations (set_member/__setitem__/del_member/__delitem__/"
+        "length 1..3 over a fixed alphabet of 43 literal operations (set_member/__setitem__/del_member/__delitem__/"
         "get_member/__getitem__ x name/dotted/tuple keys x object/collection receivers, alias creation with string/object "
-        "targets, alias.target = self/same-path/other, resolve, stubs-module replacement, invalid keys), plus seeded random "
-        "histories of length 5..40 generated against the evolving state. distinct = digest of the literal operation list; "
+        "targets, alias.target = self/same-path/other, resolve, stubs-module replacement, invalid keys, twin aliases, existing "
+        "objects stored again in place / put back after deletion or replacement, a class built bottom-up), plus seeded random "
+        "histories of length 5..40 generated against the evolving state (values: fresh, bottom-up built, existing objects moved / "
+        "put back / re-set, detached values and detached receivers). distinct = digest of the literal operation list; "
         "non-trivial = the history replaces (set_member/__setitem__) an object that a resolved in-tree alias points at")
 LEVEL_TEXT = ("Every history of the enumerated bounded space (all sequences of <=3 operations of the alphabet) and every sampled "
               "long history is executed against the real classes; after each single operation the whole tree is walked and "
@@ -40,13 +46,17 @@ LEVEL_TEXT = ("Every history of the enumerated bounded space (all sequences of <
 LEVEL_NOTE = ("trusted: the ~150-line reference model (vf/gen/c16_model.py) and the walker; exception *classes* of invalid "
               "operations are recorded, not judged (the statement does not fix them); frame conditions the statement does not "
               "state (e.g. an alias retargeted through a stale back-reference) are counted, not judged; values are always "
-              "fresh objects stored under their own name (no sharing, no renaming); no inheritance between the classes")
+              "stored under their own name and in one place at a time (no renaming, no sharing: an existing object is only stored "
+              "again where it is, or elsewhere once it hangs nowhere); modules live at the collection level; a string alias never "
+              "sits at the path its own target string names; no inheritance between the classes")
 TECHNIQUE = "runtime monitoring: history + executable reference model, global invariant walker after every step, icontract post-conditions on the mutators"
 REQUIRED_COUNTERS = ["steps_walked", "parent_links_checked", "own_path_retrievals", "lookup_forms_compared",
                      "deleted_paths_checked_gone", "aliased_replacements_followed", "alias_backrefs_checked",
                      "self_target_attempts_refused", "contract_set_evals", "contract_del_evals", "contract_target_evals",
                      "ops_on_collection", "ops_with_tuple_key", "ops_with_dotted_key", "invalid_ops_rejected",
-                     "inherit_lookup_forms_compared", "inherit_deleted_paths_checked_gone"]
+                     "inherit_lookup_forms_compared", "inherit_deleted_paths_checked_gone",
+                     "existing_objects_reinserted", "existing_objects_reset_in_place", "reattached_alias_backrefs_checked",
+                     "bottom_up_containers_attached", "ops_on_detached_receiver"]
 EXHAUSTIVE = {"quick": True, "thorough": True}
 ASSUMPTIONS = ["exhaustive only over sequences of <=3 operations of the stated alphabet (<=4 over a 16-operation sub-alphabet in the "
                "thorough tier); longer histories are sampled",
@@ -59,7 +69,8 @@ F_CTOR = "C16-alias-ctor-bypasses-self-target-guard"
 F_THROUGH = "C16-mutation-through-alias-lost"
 F_CHAIN = "C16-chained-alias-backref-not-migrated"
 F_STALE = "C16-stale-backref-displaces-live-alias"
-ALL_FINDINGS = [F_DETACHED, F_TPATH, F_CTOR, F_THROUGH, F_CHAIN, F_STALE]
+F_MOVED = "C16-registration-key-not-refreshed-when-ancestor-attached"
+ALL_FINDINGS = [F_DETACHED, F_TPATH, F_CTOR, F_THROUGH, F_CHAIN, F_STALE, F_MOVED]
 
 
 class ContractBroken(Exception):
@@ -278,8 +289,15 @@ ALPHABET = [
     ["del", "delitem", "coll", []],                                          # 35
     # (appended later; keeps the numbering above stable)
     ["set", "set_member", "b", "g", "alias_obj", {"target": "a.g"}],         # 36 alias named like its target (b.g -> a.g)
+    # values that are not fresh: objects that have been around, containers built bottom-up
+    ["set", "set_member", "b", "ag", "alias_obj", {"target": "a.g"}],        # 37 a twin of the alias in place (same path, same target)
+    ["set", "set_member", "b", "ag", "existing", {"ref": "u11"}],            # 38 the universe's b.ag stored again: in place, or put back
+    ["set", "setitem", "coll", "a.K", "existing", {"ref": "u2"}],            # 39 the universe's a.K (holds alias al) stored again / put back
+    ["set", "set_member", "b", "M", "class", {"members": [["function", "f", {}], ["alias_obj", "w", {"target": "a.g", "ctor_parent": True}]]}],  # 40
+    ["set", "set_member", "coll", ["b", "M", "w"], "existing", {"ref": "=b.M.w"}],   # 41 an alias below a bottom-up built class stored again
+    ["del", "delitem", "b", "ag"],                                           # 42 (so that 38 can put it back)
 ]
-SUB_ALPHABET = [0, 1, 3, 6, 7, 9, 11, 15, 16, 19, 22, 25, 27, 28, 29, 30]   # thorough: all sequences of length 4 over these
+SUB_ALPHABET = [0, 1, 3, 6, 7, 9, 11, 15, 16, 19, 22, 25, 27, 28, 29, 30, 38, 40, 41]   # thorough: all sequences of length 4 over these
 
 STRING_TARGETS = ["a.K", "b.L.h", "b.z", "a.g", "b.ag", "a.K.f", "a.nope", "b.L", "a.y"]
 LEAF_NAMES = ["f", "x", "g", "y", "h", "z", "n", "w", "ak", "ag", "al"]   # alias names are always leaf names (see model)
@@ -288,7 +306,7 @@ MODULE_NAMES = ["a", "b", "c"]
 
 
 class StepInfo:
-    __slots__ = ("new_real", "old_backrefs", "old_backref_map", "retargeted", "new_node")
+    __slots__ = ("new_real", "old_backrefs", "old_backref_map", "retargeted", "new_node", "reattached", "prev")
 
     def __init__(self) -> None:
         self.new_real = None
@@ -296,6 +314,8 @@ class StepInfo:
         self.old_backrefs: list = []
         self.old_backref_map: dict = {}
         self.retargeted: list = []
+        self.reattached = None      # the existing alias this step stored (again): its registration must have been refreshed
+        self.prev: dict = {}        # uid -> (stamp, reg_path) of the aliases this step re-bound, as they were before
 
 
 class World:
@@ -311,12 +331,16 @@ class World:
         self.real: dict[int, object] = {}
         self.n_uid = 0
         self.alias_nodes: list[N] = []      # every alias ever created (attached or not)
+        self.labels: dict[str, N] = {}      # creation label -> node ("u3", "h0", "h0/w"): how histories designate existing objects
+        self.node_of: dict[int, N] = {}     # id(real object) -> node (the real objects are kept alive by self.real)
         self.pre_designated: dict[int, N | None] = {}
         self.ever: set[str] = set()         # every path that ever held a member
         self.known: list[tuple[str, str, object, object]] = []   # known findings met: (id, what, observed, expected)
         self.nontrivial = False
         self.tags: set[str] = set()
         self.soft: dict[str, int] = {}
+        self.cur_label: str | None = None
+        self.soft_bound: set[int] = set()   # aliases whose link the model keeps although the real alias is unresolved
 
     # -- values -------------------------------------------------------------------------------
     def new_node(self, kind: str, name: str, **kw) -> N:  # noqa: ANN003
@@ -326,11 +350,16 @@ class World:
             self.alias_nodes.append(node)
         return node
 
-    def make(self, kind: str, name: str, opt: dict, cont_real):  # noqa: ANN001, ANN201
+    def make(self, kind: str, name: str, opt: dict, cont_real, cont_node: N | None = None, label: str | None = None):  # noqa: ANN001, ANN201
+        """A fresh value.  ``opt["members"]`` (classes, modules): the value is built bottom-up - its members are created and
+        stored through the real API while it is still attached nowhere."""
         g = self.g
         if kind in ("function", "attribute", "class"):
             node = self.new_node(kind, name)
             obj = {"function": g.Function, "attribute": g.Attribute, "class": g.Class}[kind](name)
+        elif kind == "module" and opt.get("members"):
+            node = self.new_node("module", name)
+            obj = g.Module(name, filepath=Path(f"/nonexistent-vf/{name}.py"))
         elif kind in ("module", "stub"):
             suffix = ".pyi" if kind == "stub" else ".py"
             node = self.new_node("module", name, suffix=suffix)
@@ -339,25 +368,47 @@ class World:
                 sub = self.new_node("function", "sf")
                 sobj = g.Function("sf")
                 self.real[sub.uid] = sobj
+                self.node_of[id(sobj)] = sub
                 node.members["sf"] = sub
                 sub.up = node
                 obj.set_member("sf", sobj)
         elif kind == "alias_str":
             node = self.new_node("alias", name, target_path=opt["target"])
-            obj = g.Alias(name, opt["target"])
+            if opt.get("ctor_parent") and cont_real is not None:
+                node.up = cont_node
+                obj = g.Alias(name, opt["target"], parent=cont_real)
+            else:
+                obj = g.Alias(name, opt["target"])
         elif kind == "alias_obj":
             tnode = self.tree.node_at(opt["target"])
             if tnode is None:
                 raise Inapplicable(f"alias target {opt['target']} does not exist")
             node = self.new_node("alias", name, target_path=opt["target"])
-            self.bind(node, tnode)
             if opt.get("ctor_parent") and cont_real is not None:
+                node.up = cont_node      # the constructor's parent: the alias registers under <that parent's path>.<name> right away
+                self.bind(node, tnode)
                 obj = g.Alias(name, self.real[tnode.uid], parent=cont_real)
             else:
+                self.bind(node, tnode)
                 obj = g.Alias(name, self.real[tnode.uid])
         else:
             raise ValueError(kind)
         self.real[node.uid] = obj
+        self.node_of[id(obj)] = node
+        if label is not None:
+            node.label = label
+            self.labels[label] = node
+        if kind in ("class", "module") and opt.get("members"):
+            for mkind, mname, mopt in opt["members"]:
+                if mkind not in ("function", "attribute", "class", "alias_str", "alias_obj"):
+                    raise ValueError(mkind)
+                mnode, mobj = self.make(mkind, mname, mopt, obj, node, None if label is None else f"{label}/{mname}")
+                obj.set_member(mname, mobj)
+                node.members[mname] = mnode
+                mnode.up = node
+                if mnode.kind == "alias":
+                    self.bind(mnode, None)
+            self.rec.count("values_built_bottom_up")
         return node, obj
 
     def bind(self, al: N, tnode: N | None) -> None:
@@ -371,14 +422,65 @@ class World:
                 self.tree.final(al)
             except (MCyclic, MUnresolvable, MOutOfDomain):
                 al.unreg = True
+            # (the registration itself comes last: the links of the chain that got resolved on the way registered before it)
+            self.tree.clock += 1
+            al.stamp = al.reg_stamp = self.tree.clock
 
     def receiver(self, where: str):  # noqa: ANN201
+        """(node, members, real object, path parts of the receiver, receiver hangs outside the tree)."""
         if where == "coll":
-            return None, self.tree.root, self.coll
+            return None, self.tree.root, self.coll, [], False
+        if where.startswith("@"):        # a container designated by its creation label: it may be attached or not
+            node = self.labels.get(where[1:])
+            if node is None or node.kind not in ("module", "class"):
+                raise Inapplicable(f"no container labelled {where}")
+            detached = not self.tree.in_tree(node)
+            if detached:
+                self.rec.count("ops_on_detached_receiver")
+            return node, node.members, self.real[node.uid], node.path().split("."), detached
         node = self.tree.node_at(where)
         if node is None or node.kind == "alias":
             raise Inapplicable(f"receiver {where} does not exist")
-        return node, node.members, self.real[node.uid]
+        return node, node.members, self.real[node.uid], where.split("."), False
+
+    def refuse_self_naming(self, kind: str, opt: dict, dest: list) -> None:
+        """Domain restriction: a string-target alias is never placed at the very path its target string names (the constructor
+        accepts it, nothing can be said about what it points at, and "pointed at the replaced object" is undefined for it)."""
+        if kind == "alias_str":
+            bad = opt["target"] == ".".join(dest)
+        elif kind == "existing":
+            ref = opt["ref"]
+            node = self.tree.node_at(ref[1:]) if ref.startswith("=") else self.labels.get(ref)
+            bad = node is not None and any(n.kind == "alias" and n.target is None and n.target_path == ".".join([*dest, *rel])
+                                           for rel, n in self.tree.subtree(node))
+        else:
+            for mkind, mname, mopt in opt.get("members", ()):
+                self.refuse_self_naming(mkind, mopt, [*dest, mname])
+            return
+        if bad:
+            raise Inapplicable("a string alias would sit at the path its own target string names")
+
+    def existing(self, opt: dict, key, expect: str, loc) -> tuple:  # noqa: ANN001
+        """The value of a ``set`` operation of kind "existing": an object created earlier in the history.
+        ref "u<k>" / "h<k>" (+ "/<member>"): the value created by universe / history step k; "=<path>": the object stored there now.
+        Domain (the rest is misuse the statement does not cover): stored under its own name; either it is already the member
+        at the destination (re-set in place) or it hangs nowhere (deleted / replaced / never attached) and the destination is
+        not below it; modules live at the collection level only; never a stubs module (its members were merged away)."""
+        ref = opt["ref"]
+        node = self.tree.node_at(ref[1:]) if ref.startswith("=") else self.labels.get(ref)
+        if node is None:
+            raise Inapplicable(f"nothing designated by {ref}")
+        if expect != "ok":
+            return node, self.real[node.uid], "invalid-key"
+        cont_node, cont_members, crossed = loc
+        name = parts_of(key)[-1]
+        if crossed is not None or name != node.name or (node.kind == "module") != (cont_node is None) or node.suffix != ".py":
+            raise Inapplicable("outside the domain of re-insertions")
+        if cont_members.get(name) is node:
+            return node, self.real[node.uid], "in-place"
+        if not self.tree.is_detached_root(node) or self.tree.inside(cont_node, node):
+            raise Inapplicable("the object is stored elsewhere (sharing) or the destination is below it")
+        return node, self.real[node.uid], "reinserted"
 
     @staticmethod
     def keyobj(key):  # noqa: ANN001, ANN205
@@ -414,18 +516,19 @@ class World:
             self.rec.count("ops_with_dotted_key")
 
     # -- operations ---------------------------------------------------------------------------
-    def step(self, op: list) -> StepInfo:
+    def step(self, op: list, label: str | None = None) -> StepInfo:
         info = StepInfo()
+        self.cur_label = label
         # what every unresolved alias designates *before* the step (an alias may get resolved as a side effect in the middle of
         # an operation - or by the walker's own probing after the previous step - and its target be replaced/deleted afterwards)
-        self.pre_designated = {al.uid: self.tree.node_at(al.target_path) for al in self.alias_nodes if al.target is None}
+        self.pre_designated = {al.uid: self.tree.node_at(al.target_path) for al in self.alias_nodes
+                               if al.target is None or al.uid in self.soft_bound}
         getattr(self, "op_" + op[0])(op, info)
         return info
 
     def op_set(self, op, info) -> None:  # noqa: ANN001, C901, PLR0912, PLR0915
         _tag, api, where, key, kind, opt = op
-        recv_node, recv_members, recv_real = self.receiver(where)
-        self.count_key(where, key)
+        recv_node, recv_members, recv_real, recv_base, recv_detached = self.receiver(where)
         expect, loc = self.predict(lambda: self.tree.container(recv_node, recv_members, parts_of(key)))
         name = "q"
         cont_node = cont_members = crossed = None
@@ -434,10 +537,35 @@ class World:
             name = parts_of(key)[-1]
         elif expect != "ValueError":
             name = parts_of(key)[-1]
+        if recv_detached and (crossed is not None or expect in ("AliasResolutionError", "CyclicAliasError")):
+            raise Inapplicable("key crosses an alias below a receiver that hangs outside the tree (nothing to resolve it against)")
         cont_real = None
         if expect == "ok" and crossed is None:
             cont_real = self.real[cont_node.uid] if cont_node is not None else None
-        node, value = self.make(kind, name, opt, cont_real)
+        if expect == "ok" and crossed is None:
+            self.refuse_self_naming(kind, opt, (cont_node.path().split(".") if cont_node is not None else []) + [name])
+        if expect == "ok" and crossed is None and api == "set_member" and kind in ("module", "stub", "existing"):
+            there = cont_members.get(name)
+            if there is not None and there.kind == "module":
+                if kind == "existing":
+                    vnode = self.tree.node_at(opt["ref"][1:]) if opt["ref"].startswith("=") else self.labels.get(opt["ref"])
+                    vkinds = {n: m.kind for n, m in vnode.members.items()} if vnode is not None else {}
+                    vsuffix = vnode.suffix if vnode is not None else there.suffix
+                else:
+                    vkinds = {"sf": "function"} if kind == "stub" else {m[1]: m[0].split("_")[0] for m in opt.get("members", ())}
+                    vsuffix = ".pyi" if kind == "stub" else ".py"
+                if vsuffix != there.suffix and any(vkinds[n] in ("class", "alias") or there.members[n].kind in ("class", "alias")
+                                                   for n in set(vkinds) & set(there.members)):
+                    # domain: the model knows the stubs merge one level deep (members only the stubs have are adopted).  What the
+                    # merger does with a name both sides have is its own business when a class (merged recursively) or an alias
+                    # (looked through; in a module that is not attached yet this aborts the merge half-way) is involved
+                    raise Inapplicable("stubs merge of two modules that share a class or an alias name")
+        how = "fresh"
+        if kind == "existing":
+            node, value, how = self.existing(opt, key, expect, loc)
+        else:
+            node, value = self.make(kind, name, opt, cont_real, cont_node, self.cur_label)
+        self.count_key(where, key)
         old = cont_members.get(name) if expect == "ok" else None
         old_real = self.real[old.uid] if old is not None else None
         if old is not None and old.kind != "alias" and crossed is None:
@@ -459,7 +587,7 @@ class World:
             self.soft_class(raised, expect)
             self.rec.count("invalid_ops_rejected")
             return
-        dest = ".".join(([where] if where != "coll" else []) + parts_of(key))
+        dest = ".".join(recv_base + parts_of(key))
         if crossed is not None:
             # the key walks through an alias: the statement's post-condition is "the member is retrievable under that key"
             lost = isinstance(raised, ContractBroken) and raised.receiver_is_alias
@@ -507,33 +635,67 @@ class World:
             info.retargeted = list(pointing)
         cont_members[name] = stored
         stored.up = cont_node
+        info.prev = {al.uid: (al.stamp, al.reg_path, al.reg_stamp) for al in [stored, *info.retargeted] if al.kind == "alias"}
         if stored.kind == "alias":
-            self.bind(stored, None)     # attaching an alias (re-)registers it with its target
+            self.bind(stored, None)     # attaching an alias (re-)registers it with its target, under the path it has now
         for al in info.retargeted:      # (the value's path - and what a string target designates - is that of the attached value)
             self.bind(al, stored)
-        self.ever.add(dest)
+        for rel, sub in self.tree.subtree(stored):
+            self.ever.add(".".join([dest, *rel]))
+        if how != "fresh":
+            # an object that has been around: (re-)attached, put back where it was, moved, or stored again where it is
+            self.rec.count("existing_objects_reset_in_place" if how == "in-place" else "existing_objects_reinserted")
+            self.tags.add("existing:" + how)
+            if stored is node and node.kind == "alias" and node.target is not None:
+                info.reattached = node
+        if stored is node and node.kind != "alias" and node.members and not recv_detached and how != "in-place":
+            self.rec.count("bottom_up_containers_attached")   # a container that got its members before it got its place
         info.new_node, info.new_real = stored, self.real[stored.uid]
         # ---- local checks of this step
-        if node.kind == "alias" and node.target is not None and node.target.path() == dest and stored is node:
-            # an alias whose (constructor-given) target sits at the alias' own path
-            t = value._target
-            if t is not None and (t is value or t.path == value.path):
-                self.known.append((F_CTOR, f"Alias({name!r}, target=<object at {dest}>) stored at {dest}: the alias targets its own path",
-                                   f"alias.path == alias.target.path == {value.path!r}", "refused (CyclicAliasError) as by the target setter"))
-                raise Violation("poisoned", finding=F_CTOR)
+        for rel, sub in (self.tree.subtree(node) if stored is node else ()):
+            # an alias (the value itself, or one below a value that was built / filled before it got this place) whose already
+            # given target sits at the alias' own path: attaching never goes through the guard of the target setter
+            spath = ".".join([dest, *rel])
+            if sub.kind == "alias" and sub.target is not None and sub.target.path() == spath:
+                rsub = self.real[sub.uid]
+                t = rsub._target
+                if t is not None and (t is rsub or t.path == rsub.path):
+                    self.known.append((F_CTOR, f"Alias({sub.name!r}, target=<object at {spath}>) stored at {spath}: the alias targets its own path",
+                                       f"alias.path == alias.target.path == {rsub.path!r}", "refused (CyclicAliasError) as by the target setter"))
+                    raise Violation("poisoned", finding=F_CTOR)
         for al in info.retargeted:
-            if not self.tree.in_tree(al):
-                continue
             ral = self.real[al.uid]
+            if not self.tree.in_tree(al):
+                # the alias lived below the object that was replaced: it left the tree with it, the statement says nothing about
+                # it any more -> the model follows whatever the real alias did
+                if ral._target is not info.new_real:
+                    self.tree.bind(al, old)
+                    al.stamp, al.reg_path, al.reg_stamp = info.prev.get(al.uid, (al.stamp, al.reg_path, al.reg_stamp))
+                    self.rec.count("aliases_leaving_with_their_replaced_target_not_retargeted")
+                continue
             if ral._target is not info.new_real:
                 listed = info.old_backref_map.get(ral.path)
-                if listed is not None and listed is not ral and listed.is_alias and not self.is_attached(listed):
+                prev = info.prev.get(al.uid, (al.stamp, al.reg_path, al.reg_stamp))
+                preg = prev[1]
+                if (listed is not None and listed is not ral and self.displaced_by_stale(listed, prev[2])) or al.displaced == prev[2]:
                     # consequence of the displaced back-reference: the replaced object no longer listed this (live) alias,
                     # its slot was held by the detached alias that used to live at the same path
                     if not any(k[0] == F_STALE for k in self.known):
                         self.known.append((F_STALE, f"alias {al.path()} pointed at {dest} but was not listed in its aliases (slot held by a detached alias "
                                                     "of the same path), so it did not follow the set_member replacement", repr(ral._target), repr(info.new_real)))
-                    self.bind(al, old)
+                    self.tree.bind(al, old)
+                    al.stamp, al.reg_path, al.reg_stamp = prev
+                    al.displaced = prev[2]
+                    continue
+                if preg != ral.path and not any(a is ral for a in info.old_backrefs):
+                    # consequence of the outdated registration key: the alias was registered under the path it had before an
+                    # ancestor was attached / moved, and that key was overwritten (or never existed) -> the replaced object did
+                    # not list it
+                    if not any(k[0] == F_MOVED for k in self.known):
+                        self.known.append((F_MOVED, f"alias {al.path()} pointed at {dest} but was only registered under its former path {preg!r}, "
+                                                    "so it did not follow the set_member replacement", repr(ral._target), repr(info.new_real)))
+                    self.tree.bind(al, old)
+                    al.stamp, al.reg_path, al.reg_stamp = prev
                     continue
                 raise Violation(f"alias {al.path()} pointed at {dest}, replaced through set_member, but did not follow the replacement",
                                 repr(ral._target), repr(info.new_real))
@@ -545,9 +707,31 @@ class World:
                 else:
                     raise Violation(f"alias {al.path()} followed the replacement of {dest} but its target_path is wrong", ral.target_path, dest)
 
+    def op_new(self, op, info) -> None:  # noqa: ANN001, ARG002
+        """Create a value without storing it anywhere (later steps designate it by its label "h<step>").  For aliases,
+        ``opt["parent"]`` (a path, or "@label") is handed to the constructor: the alias then names a parent that does not hold it."""
+        _tag, kind, name, opt = op
+        if kind not in ("function", "attribute", "class", "module", "alias_str", "alias_obj"):
+            raise ValueError(kind)
+        pnode = preal = None
+        if opt.get("parent") is not None:
+            pnode, _m, preal, _b, _d = self.receiver(opt["parent"])
+            if pnode is None:
+                raise Inapplicable("the collection cannot be a parent")
+            if name in pnode.members or self.tree.node_at(f"{pnode.path()}.{name}") is not None:
+                # domain: the constructor's parent must not already hold a member of that name, and the path the value claims
+                # must be free in the tree (else the new object is a second claimant of an occupied path - with an object target
+                # at that very path it is the constructor bypass of the self-target guard, without ever being stored)
+                raise Inapplicable("the path the new value would claim is occupied")
+        claimed = f"{pnode.path()}.{name}" if pnode is not None else name
+        if any(m[0] == "alias_obj" and m[2]["target"] == f"{claimed}.{m[1]}" for m in opt.get("members", ())):
+            raise Inapplicable("a member alias would be built on the object at the very path it claims")
+        self.make(kind, name, {**opt, "ctor_parent": pnode is not None}, preal, pnode, self.cur_label)
+        self.rec.count("values_created_detached")
+
     def op_del(self, op, info) -> None:  # noqa: ANN001, ARG002
         _tag, api, where, key = op
-        recv_node, recv_members, recv_real = self.receiver(where)
+        recv_node, recv_members, recv_real, _base, recv_detached = self.receiver(where)
         self.count_key(where, key)
 
         def locate():  # noqa: ANN202
@@ -558,6 +742,8 @@ class World:
             return cont_node, cont_members, crossed, parts[-1]
 
         expect, loc = self.predict(locate)
+        if recv_detached and ((expect == "ok" and loc[2] is not None) or expect in ("AliasResolutionError", "CyclicAliasError")):
+            raise Inapplicable("key crosses an alias below a receiver that hangs outside the tree")
         try:
             if api == "del_member":
                 recv_real.del_member(self.keyobj(key))
@@ -597,9 +783,11 @@ class World:
 
     def op_get(self, op, info) -> None:  # noqa: ANN001, ARG002
         _tag, api, where, key = op
-        recv_node, recv_members, recv_real = self.receiver(where)
+        recv_node, recv_members, recv_real, recv_base, recv_detached = self.receiver(where)
         self.count_key(where, key)
         expect, found = self.predict(lambda: self.tree.lookup(recv_members, parts_of(key)))
+        if recv_detached and (isinstance(found, tuple) or expect in ("AliasResolutionError", "CyclicAliasError")):
+            raise Inapplicable("key crosses an alias below a receiver that hangs outside the tree")
         try:
             got = recv_real.get_member(self.keyobj(key)) if api == "get_member" else recv_real[self.keyobj(key)]
             raised = None
@@ -615,7 +803,7 @@ class World:
             raise Violation(f"{api}({key!r}) is valid but raised", f"{type(raised).__name__}: {raised}", repr(found))
         if isinstance(found, tuple):
             _w, member, _crossed = found
-            want_path = ".".join(([where] if where != "coll" else []) + parts_of(key))
+            want_path = ".".join(recv_base + parts_of(key))
             if not got.is_alias or got._target is not self.real[member.uid] or got.path != want_path:
                 raise Violation(f"{api}({key!r}) through an alias: wrong result", f"{got!r} path={got.path}", f"alias at {want_path} on {member!r}")
             self.rec.count("lookups_through_alias_checked")
@@ -685,6 +873,8 @@ class World:
         ral = self.real[al.uid]
 
         def model():  # noqa: ANN202
+            if ral._target is None:
+                al.target = None     # (the model may have taken a link for made that the real alias dropped: start from the real state)
             if al.target is None:
                 self.tree.resolve(al)
             return al.target
@@ -813,6 +1003,12 @@ class World:
             if want is None or rt is not real[want.uid]:
                 before = self.pre_designated.get(node.uid)
                 if before is None or rt is not real[before.uid]:
+                    if info.new_real is not None and rt is info.new_real and any(a is obj for a in info.old_backrefs):
+                        # resolved behind the model's back (by the probing of the previous walk), listed in the aliases of the
+                        # final target of its chain, and retargeted with them by this set_member: counted, not judged (see below)
+                        rec.count("stale_backref_retargets_observed")
+                        self.bind(node, info.new_node)
+                        return
                     raise Violation(f"alias {where} -> {node.target_path!r} got resolved to something else than the object at that path",
                                     repr(rt), repr(want))
                 want = before
@@ -827,6 +1023,18 @@ class World:
             # none of the stated invariants (it resolves lazily through its target path) -> follow the real state
             rec.count("model_bound_but_real_alias_unresolved")
             self.bind(node, None)
+            self.soft_bound.add(node.uid)    # (the link is kept for the chain bookkeeping; it is not a claim about the real alias)
+        elif rt is real[node.target.uid]:
+            self.soft_bound.discard(node.uid)
+        elif node.uid in self.soft_bound and self.designated_by_path(node, rt) is not None:
+            # the real alias was unresolved and has been resolved lazily since: what counts is what its target path designates
+            # now (or designated before this step), not the link the model had kept from an earlier, aborted resolution
+            want = self.designated_by_path(node, rt)
+            stamp = node.stamp
+            self.bind(node, want)
+            node.stamp = stamp
+            self.soft_bound.discard(node.uid)
+            rec.count("implicit_resolutions_adopted")
         elif rt is not real[node.target.uid]:
             if info.new_real is not None and rt is info.new_real and any(a is obj for a in info.old_backrefs):
                 # not required by the statement, not forbidden either: an alias that no longer pointed at the replaced
@@ -835,6 +1043,24 @@ class World:
                 self.bind(node, info.new_node)
             else:
                 raise Violation(f"target of alias {where} changed although no operation retargeted it", repr(rt), repr(node.target))
+
+    def designated_by_path(self, node: N, rt):  # noqa: ANN001, ANN201
+        """The model node the alias' target path designates (now, or before this step) if that is the real target ``rt``."""
+        for want in (self.tree.node_at(node.target_path), self.pre_designated.get(node.uid)):
+            if want is not None and rt is self.real[want.uid]:
+                return want
+        return None
+
+    def displaced_by_stale(self, listed, live_stamp: int) -> bool:  # noqa: ANN001
+        """F_STALE's mechanism: the slot of a live alias is held by a *detached* alias (one the history created, which is no
+        longer reachable from the collection) that (re-)registered itself AFTER the live alias last did."""
+        if not listed.is_alias or self.is_attached(listed):
+            return False
+        lnode = self.node_of.get(id(listed))
+        if lnode is None:
+            return False
+        # (an alias the model still takes for unresolved got resolved - and registered - by the probing of this very walk)
+        return lnode.reg_stamp > live_stamp or (lnode.target is None and listed._target is not None)
 
     def is_attached(self, obj) -> bool:  # noqa: ANN001
         """Is the real object reachable from the collection through the members dicts (i.e. does it live in the tree)?"""
@@ -846,7 +1072,7 @@ class World:
                 return False
             obj = parent
 
-    def check_alias(self, path: str, node: N, obj, info: StepInfo) -> None:  # noqa: ANN001, ARG002
+    def check_alias(self, path: str, node: N, obj, info: StepInfo) -> None:  # noqa: ANN001
         rec = self.rec
         rt = obj._target
         if rt is None:
@@ -862,7 +1088,17 @@ class World:
             if rt.is_alias and node.unreg:
                 rec.count("backref_checks_skipped_unfollowable_chain")   # bound while the chain could not be followed
                 return
-            if listed is not None and listed.is_alias and listed.path == obj.path and not self.is_attached(listed):
+            if node.reg_path != path:
+                # the alias was last registered when it had another path: an ancestor was attached / moved afterwards (bottom-up
+                # construction, a subtree put back elsewhere) and nothing re-registers the aliases below it
+                if not any(k[0] == F_MOVED for k in self.known):
+                    self.known.append((F_MOVED, f"alias {path} is registered in its target's aliases under the path it had when it was attached "
+                                                f"({node.reg_path!r}), not under its current path", sorted(rt.aliases), path))
+                rec.count("outdated_registration_keys_observed")
+                return
+            if (listed is not None and listed.path == obj.path and self.displaced_by_stale(listed, node.reg_stamp)) or node.displaced == node.reg_stamp:
+                # (or: it was displaced that way earlier, has not registered since, and the displacing alias was moved on meanwhile)
+                node.displaced = node.reg_stamp
                 # the slot is held by a *detached* alias of the same path (one that used to live at this path): it was retargeted
                 # through a stale back-reference and overwrote the entry of the live alias
                 if not any(k[0] == F_STALE for k in self.known):
@@ -879,6 +1115,8 @@ class World:
             raise Violation(f"resolved alias {path} is not listed in its target's aliases under its current path",
                             sorted(rt.aliases), path)
         rec.count("alias_backrefs_checked")
+        if info.reattached is node:
+            rec.count("reattached_alias_backrefs_checked")   # an alias that had been around was stored (again): listed under its path now
 
 
 # ==================================================================================================
@@ -898,8 +1136,8 @@ def run_history(rec, ops: list, walk_universe: bool = False) -> dict:
     out = {"verdict": "ok", "step": None, "what": None, "observed": None, "expected": None, "finding": None,
            "nontrivial": False, "tags": [], "applied": 0, "inapplicable": 0}
     try:
-        for op in UNIVERSE:
-            w.step(op)
+        for k, op in enumerate(UNIVERSE):
+            w.step(op, f"u{k}")
         if walk_universe or not _BASELINE_WALKED:
             w.walk(StepInfo())
             _BASELINE_WALKED = True
@@ -908,7 +1146,7 @@ def run_history(rec, ops: list, walk_universe: bool = False) -> dict:
         for i, op in enumerate(ops):
             out["step"] = i
             try:
-                info = w.step(op)
+                info = w.step(op, f"h{i}")
                 out["applied"] += 1
             except Inapplicable:
                 out["inapplicable"] += 1
@@ -961,8 +1199,8 @@ def report(rec, ops: list, out: dict) -> None:  # noqa: ANN001
 def gen_history(rng: random.Random, rec, length: int) -> tuple[list, dict]:  # noqa: ANN001, C901, PLR0912, PLR0915
     """Generate a history op by op against the evolving state (so that most operations are applicable) and judge it."""
     w = World(rec)
-    for op in UNIVERSE:
-        w.step(op)
+    for k, op in enumerate(UNIVERSE):
+        w.step(op, f"u{k}")
     ops: list = []
     out = {"verdict": "ok", "step": None, "what": None, "observed": None, "expected": None, "finding": None,
            "nontrivial": False, "tags": [], "applied": 0, "inapplicable": 0}
@@ -981,21 +1219,98 @@ def gen_history(rng: random.Random, rec, length: int) -> tuple[list, dict]:  # n
         key = rel if r < 0.35 else ".".join(rel)
         return where, key
 
-    def pick_op():  # noqa: ANN202, C901, PLR0911, PLR0912
-        r = rng.random()
+    def member_specs(nodes):  # noqa: ANN001, ANN202
+        """Literal member list of a value that is built bottom-up (before it is stored anywhere).  One level only: the
+        recorder keeps literals up to a fixed nesting depth (deeper bottom-up trees come from storing into detached containers)."""
+        specs, used = [], set()
+        for _ in range(rng.randint(1, 3)):
+            kind = rng.choice(["function", "attribute", "alias_str", "alias_obj", "alias_obj", "class"])
+            name = rng.choice(CLASS_NAMES if kind == "class" else LEAF_NAMES)
+            if name in used:
+                continue
+            used.add(name)
+            opt: dict = {}
+            if kind == "alias_str":
+                opt = {"target": rng.choice([t for t in STRING_TARGETS if not t.endswith("." + name)])}
+            elif kind == "alias_obj":
+                if not nodes:
+                    continue
+                opt = {"target": ".".join(rng.choice(nodes)[0]), "ctor_parent": rng.random() < 0.5}
+            specs.append([kind, name, opt])
+        return specs
+
+    def pick_op():  # noqa: ANN202, C901, PLR0911, PLR0912, PLR0915
         conts = containers()
         aliases = [(parts, n) for parts, n, _c in w.tree.walk() if n.kind == "alias"]
         nodes = [(parts, n) for parts, n, _c in w.tree.walk()]
+        labelled = list(w.labels.values())
+        loose_conts = [n for n in labelled if n.kind in ("module", "class") and not w.tree.in_tree(n)]
+        if loose_conts and rng.random() < 0.07:    # work on a container that hangs outside the tree (deleted, replaced, not yet attached)
+            c = rng.choice(loose_conts)
+            where, r0 = "@" + c.label, rng.random()
+            inner = [n for n in c.members.values() if n.kind == "class"]
+            pre = [rng.choice(inner).name] if inner and rng.random() < 0.3 else []
+            if r0 < 0.55:
+                kind = rng.choice(["function", "attribute", "class", "alias_str", "alias_obj", "alias_obj"])
+                name = rng.choice(CLASS_NAMES if kind == "class" else LEAF_NAMES)
+                opt: dict = {}
+                if kind == "alias_str":
+                    opt = {"target": rng.choice(STRING_TARGETS)}
+                elif kind == "alias_obj":
+                    if not nodes:
+                        return ["get", "get_member", where, name]
+                    opt = {"target": ".".join(rng.choice(nodes)[0]), "ctor_parent": rng.random() < 0.5}
+                parts = [*pre, name]
+                return ["set", "set_member" if rng.random() < 0.65 else "setitem", where, parts if rng.random() < 0.35 else ".".join(parts), kind, opt]
+            names = list(c.members) or ["nope"]
+            if r0 < 0.8:
+                return ["del", "del_member" if rng.random() < 0.5 else "delitem", where, rng.choice(names)]
+            return ["get", "get_member" if rng.random() < 0.5 else "getitem", where, rng.choice(names)]
+        if rng.random() < 0.04:                    # a value created without being stored (aliases: with any container as constructor parent)
+            kind = rng.choice(["function", "class", "class", "module", "alias_str", "alias_obj", "alias_obj"])
+            name = rng.choice(CLASS_NAMES if kind == "class" else MODULE_NAMES if kind == "module" else LEAF_NAMES)
+            opt = {}
+            if kind in ("class", "module") and rng.random() < 0.6:
+                opt = {"members": member_specs(nodes)}
+            if kind.startswith("alias"):
+                if kind == "alias_obj" and not nodes:
+                    return ["new", "function", name, {}]
+                opt = {"target": rng.choice(STRING_TARGETS) if kind == "alias_str" else ".".join(rng.choice(nodes)[0])}
+                r0 = rng.random()
+                if r0 < 0.4 and conts:
+                    opt["parent"] = ".".join(rng.choice(conts)[0])
+                elif r0 < 0.7 and loose_conts:
+                    opt["parent"] = "@" + rng.choice(loose_conts).label
+            return ["new", kind, name, opt]
+        r = rng.random()
         if r < 0.40 or not nodes:     # insertion / replacement
             api = "set_member" if rng.random() < 0.65 else "setitem"
             r2 = rng.random()
             if r2 < 0.12 or not conts:
                 kind = "stub" if rng.random() < 0.25 else "module"
-                return ["set", api, "coll", rng.choice(MODULE_NAMES) if rng.random() < 0.8 else [rng.choice(MODULE_NAMES)], kind, {}]
+                opt = {"members": member_specs(nodes)} if kind == "module" and rng.random() < 0.2 else {}
+                return ["set", api, "coll", rng.choice(MODULE_NAMES) if rng.random() < 0.8 else [rng.choice(MODULE_NAMES)], kind, opt]
             if r2 < 0.20 and aliases:   # through an alias
                 aparts, _a = rng.choice(aliases)
                 where, key = address((*aparts, rng.choice(LEAF_NAMES)))
                 return ["set", api, where, key, "function", {}]
+            if r2 < 0.38:               # a value that is not fresh: put back / moved / attached at last, or stored again where it is
+                loose = [n for n in labelled if n.suffix == ".py" and w.tree.is_detached_root(n)]
+                if loose and rng.random() < 0.65:
+                    n = rng.choice(loose)
+                    if n.kind == "module":
+                        return ["set", api, "coll", n.name if rng.random() < 0.8 else [n.name], "existing", {"ref": n.label}]
+                    if n.up is not None and w.tree.in_tree(n.up) and rng.random() < 0.55:
+                        cparts = tuple(n.up.path().split("."))      # back to where it was (or where its constructor parent is)
+                    else:
+                        cparts = rng.choice(conts)[0]
+                    where, key = address((*cparts, n.name))
+                    return ["set", api, where, key, "existing", {"ref": n.label}]
+                placed = [n for n in labelled if n.suffix == ".py" and w.tree.in_tree(n)]
+                if placed:
+                    n = rng.choice(placed)
+                    where, key = address(tuple(n.path().split(".")))
+                    return ["set", api, where, key, "existing", {"ref": n.label if rng.random() < 0.5 else "=" + n.path()}]
             cparts, _c = rng.choice(conts)
             # bias towards replacing what exists (and what aliases point at)
             existing = [n for n in _c.members]
@@ -1014,7 +1329,13 @@ def gen_history(rng: random.Random, rec, length: int) -> tuple[list, dict]:  # n
                 opt = {"target": rng.choice([t for t in STRING_TARGETS if t != own])}
             elif kind == "alias_obj":
                 tparts, _t = rng.choice(nodes)
+                there = _c.members.get(name)
+                if (there is not None and there.kind == "alias" and there.target is not None and w.tree.in_tree(there.target)
+                        and rng.random() < 0.35):
+                    tparts = tuple(there.target.path().split("."))   # a twin of the alias in place: same path, same target
                 opt = {"target": ".".join(tparts), "ctor_parent": rng.random() < 0.4}
+            elif kind == "class" and rng.random() < 0.3:
+                opt = {"members": member_specs(nodes)}
             return ["set", api, where, key, kind, opt]
         if r < 0.58:                  # deletion
             api = "del_member" if rng.random() < 0.5 else "delitem"
@@ -1056,7 +1377,7 @@ def gen_history(rng: random.Random, rec, length: int) -> tuple[list, dict]:  # n
             ops.append(op)
             out["step"] = i
             try:
-                info = w.step(op)
+                info = w.step(op, f"h{i}")
                 out["applied"] += 1
             except Inapplicable:
                 out["inapplicable"] += 1
